@@ -33,9 +33,14 @@ CLAIMED = {
         technique="deterministic simulation: tie-order seam x heap-content seam, numpy itself as the oracle on the raw arrays",
         text="For 70 mirrored functions with argument generators, numeric arrays with many repeated values are wrapped as constant polynomials (plain, with unused names, with retained zero terms) and the numpoly result (numpoly and numpy-dispatch spellings) is compared with numpy's on the raw arrays under (tie policy, heap fill) environments; argmax/argmin ties, amax/amin along axes and every allocation-dependent result must agree with numpy and be identical across environments; non-constant divisors must raise FeatureNotSupported.",
         note="Only 'numpy returns => numpoly returns the same' is asserted. Text functions, savetxt and copyto are not compared (C16/C13/output target). numpy.det is compared with an absolute tolerance (floating-point LU vs exact expansion). Three genuine defects are listed in known_findings.json."),
+
+    "C12": dict(level="exploration", ref="DESIGN.md §4 C12",
+        technique="deterministic simulation: heap-content seam (fill patterns incl. stale numpoly bytes, red zones) with numpy casts/promotion on plain arrays as the oracle",
+        text="All 14 numeric dtypes and all ordered pairs through constructors/casts (polynomial/aspolynomial/polynomial_from_attributes incl. mixed-dtype coefficient lists/dict/variable/symbols/astype), +,-,*,**, indexing, shape functions, creation functions and results with zero surviving terms; every step is executed under several contents of fresh memory (zero, 0xA5, 0xFF, seeded bytes, stale bytes of an earlier numpoly buffer) with canary zones around every polynomial buffer. The result must be byte-identical across fills (nothing unwritten is returned) and equal the dtype and values numpy's own cast/promotion gives.",
+        note="numpoly.ndpoly(...) is the documented raw allocator (exempt). Buffers numpy allocates internally cannot be poisoned. Python-scalar operands: values only (a scalar is not a dtype). Runs execute in forked children; a child killed by a signal is recorded as undecided(crashed)."),
 }
 
-PENDING = {k: "check under construction in this session; will be claimed (see DESIGN.md verdict table)" for k in ["C12","C13","C15","C20"]}
+PENDING = {k: "check under construction in this session; will be claimed (see DESIGN.md verdict table)" for k in ["C13","C15","C20"]}
 
 NOT_APPLICABLE = {
     "C01": "ring arithmetic is a pure function of the operands: no schedule, clock, fault, stream or global history in any clause; its one environment dependence (unwritten coefficients) is decided under C12",
